@@ -387,6 +387,12 @@ impl Hasher for HH {
             HH::Default(h) => h.write_u64(i),
         }
     }
+    fn write_u32(&mut self, i: u32) {
+        match self {
+            HH::Table(_, id) => *id = i as u64,
+            HH::Default(h) => h.write_u32(i),
+        }
+    }
 }
 
 impl BuildHasher for H {
